@@ -25,6 +25,7 @@ import (
 	"github.com/siglens/siglens/pkg/scroll"
 	"github.com/siglens/siglens/pkg/segment/reader/record"
 	"github.com/siglens/siglens/pkg/segment/structs"
+	sutils "github.com/siglens/siglens/pkg/segment/utils"
 	"github.com/valyala/fasthttp"
 
 	"github.com/siglens/siglens/pkg/utils"
@@ -112,7 +113,7 @@ func GetQueryResponseJson(nodeResult *structs.NodeResult, indexName string, quer
 		httpResp.Hits = make([]utils.Hits, 0)
 	} else {
 		var _id string
-		allJsons, _, err := record.GetJsonFromAllRrcOldPipeline(nodeResult.AllRecords, true, qid, nodeResult.SegEncToKey, aggs, nodeResult.AllColumnsInAggs)
+		allJsons, err := getJsonFromRrcs(nodeResult.AllRecords, nodeResult.SegEncToKey, qid)
 		if err != nil {
 			log.Errorf("qid=%d, GetQueryResponseJson: failed to get allrecords from rrc, err=%v", qid, err)
 			return httpRespOuter
@@ -165,6 +166,45 @@ func GetQueryResponseJson(nodeResult *structs.NodeResult, indexName string, quer
 
 	httpRespOuter.Shards = shards
 	return httpRespOuter
+}
+
+// getJsonFromRrcs reads the records of the hits with the column reader of the query pipeline
+// (record.GetJsonFromAllRrcOldPipeline reads nothing any more): one map per rrc, in the order of the rrcs.
+func getJsonFromRrcs(rrcs []*sutils.RecordResultContainer, segEncToKey map[uint32]string, qid uint64) ([]map[string]interface{}, error) {
+	allJsons := make([]map[string]interface{}, len(rrcs))
+	idxsOfSeg := make(map[string][]int)
+	for i, rrc := range rrcs {
+		segKey, ok := segEncToKey[rrc.SegKeyInfo.SegKeyEnc]
+		if !ok {
+			return nil, fmt.Errorf("getJsonFromRrcs: could not find segenc:%v in map", rrc.SegKeyInfo.SegKeyEnc)
+		}
+		allJsons[i] = make(map[string]interface{})
+		idxsOfSeg[segKey] = append(idxsOfSeg[segKey], i)
+	}
+	reader := &record.RRCsReader{}
+	// the reader does not return these two columns
+	ignoredCols := map[string]struct{}{"_id": {}, "_type": {}}
+	for segKey, idxs := range idxsOfSeg {
+		segRrcs := make([]*sutils.RecordResultContainer, len(idxs))
+		for j, i := range idxs {
+			segRrcs[j] = rrcs[i]
+		}
+		colToValues, err := reader.ReadAllColsForRRCs(segKey, segRrcs[0].VirtualTableName, segRrcs, qid, ignoredCols)
+		if err != nil {
+			return nil, err
+		}
+		for cname, values := range colToValues {
+			if len(values) != len(idxs) {
+				return nil, fmt.Errorf("getJsonFromRrcs: column %v of segkey %v: got %v values for %v records", cname, segKey, len(values), len(idxs))
+			}
+			for j, value := range values {
+				if value.Dtype != sutils.SS_DT_BACKFILL {
+					allJsons[idxs[j]][cname] = value.CVal
+				}
+			}
+		}
+	}
+	return allJsons, nil
 }
 
 func convertQueryCountToESResponse(qc *structs.QueryCount) interface{} {
